@@ -38,6 +38,7 @@ op = st.one_of(
     st.tuples(st.just("drain"), st.integers(1, 2)).map(list),
     st.tuples(st.just("add_ball"), st.integers(1, 3)).map(list),
     st.just(["extra_ball"]), st.just(["end_ball"]), st.just(["end_game"]), st.just(["slam_tilt"]),
+    st.just(["tilt_warn"]), st.just(["tilt_warn"]), st.just(["tilt_sw"]), st.just(["slam_sw"]),
     st.tuples(st.just("advance"), st.sampled_from([0, 1, 10, 40, 100, 500])).map(list),
     st.tuples(st.just("advance"), st.sampled_from([0, 1, 10, 40, 100, 500])).map(list),
 )
@@ -50,6 +51,8 @@ then_op = st.tuples(st.just("then"), st.sampled_from([["drain", 1], ["drain", 2]
 op = st.one_of(op, op, op, then_op)
 case_strategy = st.fixed_dictionaries({
     "balls_per_game": st.integers(1, 4),
+    # balls_per_game is a template (machine.c06_bpg); these are its values for the games after the first one
+    "bpg_next": st.lists(st.integers(1, 4), max_size=3),
     "max_players": st.integers(1, 4),
     "waits": st.dictionaries(st.sampled_from(QUEUE_EVENTS), st.sampled_from([0, 5, 30, 80]), max_size=4),
     "save_every": st.sampled_from([0, 0, 2, 3]),      # the ball-save handler claims every n-th drained ball
@@ -113,6 +116,7 @@ class Acceptor:
                 name, self.phase, sorted(allowed), self.trace[-10:]))
         self.phase = name
         if name == "game_will_start":
+            self.bpg = getattr(self, "next_bpg", self.bpg)      # the template is evaluated when the game starts
             self.players = 0
             self.turns = {}
             self.cur = None
@@ -189,11 +193,21 @@ def check(case):
     def v(sig, msg):
         if len(vio) < 5:
             vio.append(violation(sig, msg))
-    patches = {"game": {"balls_per_game": case["balls_per_game"], "max_players": case["max_players"]}}
+    patches = {"game": {"balls_per_game": "machine.c06_bpg", "max_players": case["max_players"]},
+               "machine_vars": {"c06_bpg": {"initial_value": case["balls_per_game"], "value_type": "int", "persist": False}}}
     with Rig("game6", patches=patches) as rig:
         m = rig.machine
         ev = m.events
         acc = Acceptor(case["balls_per_game"], v)
+        acc.next_bpg = case["balls_per_game"]
+        bpg_next = list(case.get("bpg_next") or [])
+
+        def _next_bpg(**kwargs):
+            if bpg_next:
+                acc.next_bpg = bpg_next.pop(0)
+                m.variables.set_machine_var("c06_bpg", acc.next_bpg)
+                classes.add("balls_per_game changed between games")
+        ev.add_handler("game_ended", _next_bpg, priority=-2000)
         held = [0]
         drained_seen = [0]
 
@@ -257,6 +271,12 @@ def check(case):
             acc.ball_end_allowed = True
             if acc.phase in ("ball_will_start", "ball_starting", "ball_started"):
                 acc.ball_end_required = True
+
+        def _tilted(**kwargs):
+            # the tilt mode announces a tilt: the ball in progress has to end
+            classes.add("tilt")
+            ball_must_end()
+        ev.add_handler("tilt", _tilted, priority=100000)
 
         def request_end():
             # a turn whose player_turn_will_start is already queued was decided before this request: the acceptor must not
@@ -332,6 +352,30 @@ def check(case):
                         g.tilted = True
                         g.end_ball()
                         rig.run_ready()
+                elif k in ("tilt_warn", "tilt_sw"):
+                    # the real tilt mode (2 warnings tilt, 1 s settle time). A tilt concerns the ball in progress.
+                    if g is not None and acc.phase in ("ball_will_start", "ball_starting", "ball_started") and not g.ending:
+                        m.playfield.balls = 0               # the fake playfield has no drains: nothing to collect
+                        m.playfield.available_balls = 0
+                        sw = "s_tilt_warn" if k == "tilt_warn" else "s_tilt"
+                        m.switch_controller.process_switch(sw, 1, logical=True)
+                        rig.run_ready()
+                        m.switch_controller.process_switch(sw, 0, logical=True)
+                        rig.advance(0.11)           # beyond the tilt mode's multiple_hit_window
+                elif k == "slam_sw":
+                    # slam tilt through the tilt mode: on a live ball, or while the tilted ball is still ending
+                    if g is not None and not g.ending and (
+                            acc.phase in ("ball_will_start", "ball_starting", "ball_started") or
+                            (g.tilted and acc.phase in ("ball_will_end", "ball_ending"))):
+                        if g.tilted:
+                            classes.add("slam tilt on a tilted ball")
+                        request_end()
+                        m.playfield.balls = 0
+                        m.playfield.available_balls = 0
+                        m.switch_controller.process_switch("s_slam", 1, logical=True)
+                        rig.run_ready()
+                        m.switch_controller.process_switch("s_slam", 0, logical=True)
+                        rig.run_ready()
                 elif k == "advance":
                     rig.advance(o[1] / 1000.0)
             except Exception as e:   # pylint: disable=broad-except
@@ -354,7 +398,7 @@ def check(case):
                 rig.advance(0.1)
                 if not held[0]:
                     break
-            rig.advance(1.0)
+            rig.advance(2.5)        # longer than the tilt mode's settle time (1 s)
             if acc.in_ball and acc.ball_end_required:
                 v("ball-did-not-end", "balls in play reached zero or an end was requested, but ball_will_end was not posted "
                   "within 1 s; trace tail %r" % (acc.trace[-8:],))
